@@ -16,7 +16,7 @@ blas-src = { path = "/tmp/blaskit/stubs/blas-src" }
 lapack-src = { path = "/tmp/blaskit/stubs/lapack-src" }
 EOT
   feat="--features sdp-r,verif"
-elif grep -q "clarabel::verif" /verif/seeded/$id/demo.rs; then
+elif grep -qE "clarabel::verif|feature = \"verif\"|verif_" /verif/seeded/$id/demo.rs; then
   feat="--features verif"
 fi
 cp /verif/seeded/$id/demo.rs tests/demo_$low.rs
